@@ -48,6 +48,8 @@ fn policies() -> Vec<(&'static str, Value)> {
         ("min-fill-ones", json!({"REFSMT_DEFAULT": "model=2"})),
         ("full-cores", json!({"REFSMT_DEFAULT": "core=1"})),
         ("padded-cores-max", json!({"REFSMT_DEFAULT": "core=2,model=3"})),
+        ("minimal-cores-reversed", json!({"REFSMT_DEFAULT": "core=3"})),
+        ("minimal-cores-reversed-max", json!({"REFSMT_DEFAULT": "core=3,model=1"})),
     ]
 }
 
@@ -116,7 +118,10 @@ pub fn run(opts: &Opts, rep: &Report) {
     let mut specs: Vec<(SysSpec, bool, u64)> = vec![];
     let (mut n_safe, mut n_unsafe, mut deep) = (0u64, 0u64, 0u64);
     use rayon::prelude::*;
-    let fam: Vec<SysSpec> = family(tier, opts.seed).into_iter().filter(|spec| !(spec.has_arrays() || spec.bads.is_empty() || spec.state_bits() > 10)).collect();
+    let mut fam: Vec<SysSpec> = family(tier, opts.seed).into_iter().filter(|spec| !(spec.has_arrays() || spec.bads.is_empty() || spec.state_bits() > 10)).collect();
+    // constant registers that guard the bad state first: PDR treats constant states specially (one symbol for all
+    // steps), the BMC family reaches them anyway
+    fam.sort_by_key(|s| if s.name.starts_with("X-constguard") { 0 } else { 1 });
     let reaches: Vec<pvcore::tsref::Reach> = fam.par_iter().map(|spec| oracle(spec, None, false)).collect();
     for (spec, r) in fam.into_iter().zip(reaches.into_iter()) {
         rep.add("states", r.states);
